@@ -54,7 +54,11 @@ def parse_verdict(text):
     p.removeErrorListeners()
     col = _Collect()
     p.addErrorListener(col)
-    tree = p.start()
+    try:
+        tree = p.start()
+    except Exception as e:  # noqa: BLE001
+        # the generated parser must answer with a verdict; any other exception is reported as an error of its own kind
+        return None, [(0, 0, -1, "parser raised %s: %s" % (type(e).__name__, str(e)[:80]))], None, stream
     return (len(col.errors) == 0), col.errors, tree, stream
 
 
@@ -73,7 +77,10 @@ def parse_verdict_fresh(text):
     p.removeErrorListeners()
     col = _Collect()
     p.addErrorListener(col)
-    p.start()
+    try:
+        p.start()
+    except Exception as e:  # noqa: BLE001
+        return None, [(0, 0, -1, "parser raised %s: %s" % (type(e).__name__, str(e)[:80]))]
     return (len(col.errors) == 0), col.errors
 
 
